@@ -96,6 +96,30 @@ def trust_table():
     return "\n".join(rows)
 
 
+def numbers():
+    nthm = 0
+    for f in glob.glob(os.path.join(VERIF, "coq", "Props", "*.v")):
+        nthm += len(re.findall(r"^(Theorem|Example|Lemma|Corollary) ", open(f).read(), flags=re.M))
+    nfix = len(subprocess.check_output(["git", "-C", "/repo", "log", "--format=%h", "df0229a..HEAD"]).decode().split())
+    kf = json.load(open(os.path.join(VERIF, "known_findings.json")))
+    metas = [json.load(open(f)) for f in glob.glob(os.path.join(VERIF, "seeded", "*", "meta.json"))]
+    first = sum(1 for m in metas if m.get("caught"))
+    other = sum(1 for m in metas if m.get("caught_by_other_property"))
+    final = sum(1 for m in metas if not m.get("caught_by_other_property") and (
+        m.get("caught") or m.get("after_strengthening") or (m.get("regression") or {}).get("caught")))
+    vfiles = len([f for d in ("Base", "Model", "Proofs", "Props") for f in glob.glob(os.path.join(VERIF, "coq", d, "*.v"))])
+    vlines = sum(len(open(f).read().split("\n")) for d in ("Base", "Model", "Proofs", "Props")
+                 for f in glob.glob(os.path.join(VERIF, "coq", d, "*.v")))
+    return ("Numbers at the last regeneration: %d hand-written Coq files (%d lines) under `coq/Base|Model|Proofs|Props`, "
+            "%d statements (`Theorem` / `Example`) in `coq/Props`, all 20 properties claimed; "
+            "%d `fix:` commits in /repo (%d findings recorded as fixed, %d as known); "
+            "%d independently written seeded changes stored, %d caught by the quick check as it was when they "
+            "arrived, %d caught by it now after the strengthening recorded per change, %d outside the statement of the "
+            "property they were written for and caught by another property's check." % (
+                vfiles, vlines, nthm, nfix, sum(1 for k in kf if k["status"] == "fixed"),
+                sum(1 for k in kf if k["status"] == "known"), len(metas), first, final, other))
+
+
 def seeded_table():
     rows = ["| change | property | what it does | needs | confirmed (demo fails with / passes without; tests) | our check |",
             "|---|---|---|---|---|---|"]
@@ -139,7 +163,7 @@ def fix_commits():
 
 
 TABLES = {"findings": findings_table, "claims": claims_table, "seeded": seeded_table,
-          "claimtexts": claim_texts, "trust": trust_table,
+          "claimtexts": claim_texts, "trust": trust_table, "numbers": numbers,
           "fixcommits": fix_commits}
 
 
